@@ -12,7 +12,6 @@ import (
 	"testing"
 
 	"github.com/grafana/cog/internal/ast"
-	"github.com/grafana/cog/internal/ast/compiler"
 	"github.com/grafana/cog/internal/tools"
 	"github.com/grafana/cog/verifharness/cogx"
 	"github.com/grafana/cog/verifharness/irgen"
@@ -173,12 +172,18 @@ func c06Check(c c06Case) []vlib.Violation {
 		firstSeen[in.symptom+"@"+in.key] = "never-normalised"
 		prevSet[in.symptom+"@"+in.key] = true
 	}
-	cur := schemas
-	for _, pass := range cogx.NewLanguage(c.Lang).CompilerPasses() {
+	// every prefix of the chain is run from the input schemas, as one chain
+	// (exactly what the whole chain does up to that pass; running the passes one
+	// by one on each other's output is not the same thing: Process deep-copies
+	// and some passes behave differently on re-entry)
+	nPasses := len(cogx.NewLanguage(c.Lang).CompilerPasses())
+	for k := 1; k <= nPasses; k++ {
+		prefix := cogx.NewLanguage(c.Lang).CompilerPasses()[:k]
+		pass := prefix[k-1]
 		passName := strings.TrimPrefix(strings.TrimPrefix(fmt.Sprintf("%T", pass), "*"), "compiler.")
 		var next ast.Schemas
 		var perr error
-		_, _, p := vlib.Guard(func() { next, perr = compiler.Passes{pass}.Process(cur) })
+		_, _, p := vlib.Guard(func() { next, perr = prefix.Process(schemas) })
 		if p || perr != nil {
 			break
 		}
@@ -191,7 +196,6 @@ func c06Check(c c06Case) []vlib.Violation {
 			}
 		}
 		prevSet = nowSet
-		cur = next
 	}
 	var vs []vlib.Violation
 	seen := map[string]bool{}
